@@ -330,11 +330,23 @@ func (m *Muxer) retransmitTables(force bool) (int, error) {
 func (m *Muxer) WriteTables() (int, error) {
 	bytesWritten := 0
 
+	// Generating tables consumes continuity counter and version values: roll them back if the tables can't be emitted
+	patVersion, pmtVersion, patCC, pmtCC := m.patVersion, m.pmtVersion, m.patCC, m.pmtCC
+	pmUpdated, pmtUpdated := m.pmUpdated, m.pmtUpdated
+	rollback := func() {
+		m.patVersion, m.pmtVersion, m.patCC, m.pmtCC = patVersion, pmtVersion, patCC, pmtCC
+		m.pmUpdated, m.pmtUpdated = pmUpdated, pmtUpdated
+		m.patBytes.Reset()
+		m.pmtBytes.Reset()
+	}
+
 	if err := m.generatePAT(); err != nil {
+		rollback()
 		return bytesWritten, err
 	}
 
 	if err := m.generatePMT(); err != nil {
+		rollback()
 		return bytesWritten, err
 	}
 
